@@ -74,14 +74,14 @@ register("C09", "proof",
 register("C01", "other",
          "Partial. (1) Proved in Lean over tables regenerated from utils.py on every run: the branch emitted for every comparison operator is taken exactly when the source condition is false, the set instruction "
          "computes the comparison, the two suffix tables negate each other (branch_neg_correct, cmp_set_correct, negated_table_negates). (2) Proved for a core sub-language (ALU operations, device reads/writes, "
-         "yield/sleep, own-stack reads/writes, if/else on comparisons and truth tests, while on a comparison, while True, break, continue, return, calls of leaf procedures with parameters and results in the fixed stack cells): the model code generator comp is correct on the IC10 machine for every program, value semantics, device environment and fuel "
+         "yield/sleep, own-stack reads/writes, if/else on comparisons and truth tests, while on a comparison, while True, break, continue, return, calls of procedures — nested to any depth, not recursive, return addresses saved on the call stack, parameters and results in the fixed stack cells): the model code generator comp is correct on the IC10 machine for every program, value semantics, device environment and fuel "
          "(PV.Core.sim — a relational simulation up to ra —, compile_correct_running for whole programs with procedures, compile_correct_done for procedure-free programs; hypothesis Good decided by goodB and discharged for the real suffix tables by good_of_real_tables; compile_correct_*_stripped: also after label removal, "
          "by composition with C05's label-removal theorem through comp_ok). Tie of (2) to the code: for generated core programs the "
          "captured pre-allocation code of the REAL transpiler must equal comp (flatten src) instruction for instruction (stream incore, 97-99 % of that profile inside the core, all of them equal on the clean tree); "
          "flatten (unproved, executable) is compared with the reference semantics per program. (3) Beyond the core the whole-program statement is explored by an executable oracle — the reference semantics of the "
          "dialect (PV.Src) and the IC10 machine (PV.IC10), hand-written Lean specifications compiled into pvdrv, run each generated source program and the real emitted code against the same pseudo-random device "
          "environments and compare effect traces (prefix rule for endless programs). Streams: core, functions, call-heavy, incore; behaviour-neutral options randomised; witnesses of known findings F-C01-a/c/f "
-         "printed as KNOWN-FINDING. Level 'other' because for functions that call functions, inlining, tail calls, for-loops over lists and constant lists the deciding method is differential testing against a formal semantics.",
+         "printed as KNOWN-FINDING. Level 'other' because for inlined functions, tail calls, the push/pop convention, for-loops over lists and constant lists the deciding method is differential testing against a formal semantics.",
          TB + "PV.Src and PV.IC10 semantics are trusted hand-written specifications (not validated against the game); PV.Flatten is an unproved executable model of the front end (checked per program against PV.Src "
          "and against the real pre-allocation code); NaN / non-finite values outside the compared domain; 128-instruction tick budget not modelled.",
          "Lean 4 proofs (branch tables; compile-correctness of the model generator for the core sub-language, tied to the real generator by per-program code identity) + differential execution of real outputs "
@@ -129,7 +129,8 @@ register("C06", "other",
          "label and `pop ra` directly after the end label in the fixed-slot convention and leaves functions without calls / returns unchanged (addRaFixed_shape, addRa_unchanged); the fixed argument / result "
          "slots are pairwise distinct stack cells (slots_distinct, over the regenerated RV). Leaf functions: a body accepted by the static check checkLeaf (no jal, ra never a destination, every line is `j ra` or "
          "has its static successors inside the body) can only be left through `j ra` to the line ra held on entry, so a jal to it comes back to the line after the jal (leaf_returns, call_leaf_returns — no "
-         "dynamic hypothesis); check-leaf runs checkLeaf on every function body of every real output and a rejected call-free body is a violation. The model addRa (both conventions) is tied to the real add_ra_instructions by exact correspondence on the real function "
+         "dynamic hypothesis); check-leaf runs checkLeaf on every function body of every real output and a rejected call-free body is a violation. core_call_returns (instance of PV.Core.sim): in the proved "
+         "core language a call — nested calls saving ra on the call stack included — comes back to the line after the jal at the same stack depth; tied to the real generator by C01's function streams. The model addRa (both conventions) is tied to the real add_ra_instructions by exact correspondence on the real function "
          "bodies of every generated program and on synthetic bodies. NOT a theorem: that every emitted program keeps the discipline — decided per execution by the shadow call stack of the machine run (every "
          "executed `j ra` goes to the instruction after the call being served; sp differs from its value at the call by exactly what the convention prescribes) together with the reference semantics "
          "(arguments in order, result delivered), under fixed-slot / push-pop × tail-call, arities 0-3, early returns, loops ending in returns, nesting to depth 4, and a family of suffix-related function names "
